@@ -359,7 +359,9 @@ fn align_remaining_edges(
                     edges[edge_ix].pos = new_pos;
                 } else {
                     let anchor = &edges[anchor_ix];
-                    let new_pos = anchor.pos + ((edge.opos - anchor.opos + 16) & !31);
+                    let new_pos = anchor
+                        .pos
+                        .wrapping_add(edge.opos.wrapping_sub(anchor.opos).wrapping_add(16) & !31);
                     edges[edge_ix].pos = new_pos;
                 }
             } else {
